@@ -441,10 +441,14 @@ def bytewise(data):
 
 
 def check_stream(stream, deliveries, modes=("now",)):
+    verdicts = {}
     for mode in modes:
         for chunks in deliveries:
             got, closing = serve(chunks, mode)
-            why = judge(stream, got, closing)
+            key = (tuple(got), closing)
+            if key not in verdicts:
+                verdicts[key] = judge(stream, got, closing)
+            why = verdicts[key]
             if why is not None:
                 return "stream %r delivered as %r (application answers: %s): %s" % (
                     stream, [len(c) for c in chunks] if len(chunks) > 1 else "one piece", mode, why)
